@@ -7,7 +7,7 @@ RULE = ("exposure stream: every zoo entry (37 registrations - value, pointer, on
         "134 methods) x 7 naming functions x 3 group options (quick: 4 of the 7 naming functions per entry, one group option each), two (quick: four) methods per case: HasMethod for "
         "every declared name renamed/raw/mutated (7 routes per method), GetArgType for the real route, one CallWithSerialize "
         "per method; behaviours stream: every zoo entry x {JSON, protobuf} x method with a context and a message parameter: "
-        "7 handler behaviours x with/without completion function, matching/nil/foreign context, undecodable payload, through "
+        "10 handler behaviours (3 of them keep the completion function) x with/without completion function, matching/nil/foreign context, undecodable payload, through "
         "CallWithSerialize and APICollection.Call (nil / foreign message too; short list for non-handler-shaped methods in "
         "quick); dispatch stream: a real actorex/service.Service with an APIDispatcher over 1-3 collections of entries taking "
         "*RemoteContext (5 configurations x dispatcher orders incl. empty / repeated / unbuilt collection) x every route of "
@@ -22,10 +22,13 @@ RULE = ("exposure stream: every zoo entry (37 registrations - value, pointer, on
         "with pointer-receiver handlers) x 4 valid entries asking for the SAME group name (explicit name / the valid entry's own "
         "type name / a constant naming function) x 7 orders of register-bad / register-good / register-duplicate / Build / "
         "rebuild, each Build followed by HasMethod, GetArgType and a call for every route of every registered entry (quick: "
-        "a third of it); f4 stream: 1 (quick) / 9 (thorough) three-op cases addressing a notify-shaped method with a completion "
+        "a third of it); overlap stream: 2-3 calls / requests whose handlers KEEP the completion function (BDefer, BOkDefer, BDeferPanic) "
+        "on one collection, on ONE reused dispatcher over two collections, and mixed, with complete calls, a notification and "
+        "further kept functions in between; the kept functions are then run (OFire) in every order, each twice, with a result / "
+        "an error / an unserialisable result, plus runs of functions that do not exist (quick: half of it); f4 stream: 1 (quick) / 9 (thorough) three-op cases addressing a notify-shaped method with a completion "
         "function / request id (plus 2 in the corpus); "
         "random: 1-4 registrations (one in six of an entry Build() refuses; group collisions, register-after-build, no build), 4-15 ops with real / mutated / random "
-        "/ special routes, encoded / field-wise (omitted / good / wrong-typed / null fields) / protobuf-partial / malformed / random / empty payloads, nil serializer; every third random case is a "
+        "/ special routes, encoded / field-wise (omitted / good / wrong-typed / null fields) / protobuf-partial / malformed / random / empty payloads, nil serializer, one op in eight runs a kept completion function; every third random case is a "
         "dispatch case (1-3 collections, random dispatcher order per request). Non-trivial = some HasMethod answered true or "
         "some call / request produced an event (method invocation, completion or response); distinct = distinct op sequences.")
 TRUSTED_BASE = [
@@ -47,7 +50,7 @@ TRUSTED_BASE = [
 ]
 ASSUMPTIONS = [
     "type and method names are ASCII (isExported / strings.ToLower / ToUpper are modelled on ASCII bytes)",
-    "handlers complete synchronously on the calling goroutine (the model is sequential); a completion function panics only in the one modelled way (Service.Response on a result it cannot serialise)",
+    "handlers complete on the service goroutine, either before returning or later (kept completion functions are run between operations, never concurrently with one: the model is sequential); a completion function panics only in the one modelled way (Service.Response on a result it cannot serialise)",
     "a request handler whose own code returns normally without ever completing (behaviour BNever) is outside 'exactly once': the theorems give 0 completions / responses for it",
     "the per-container serializer option and serializeRet are not used on this call path and are not modelled",
     "Dispatch layer: the service has a dispatcher set; requests carry the registered type name of TestHello (an unknown type name takes the same repaired path as an undecodable body and is covered only by the Go test in the patch); a type-based ReceiveRequest that itself answers a request the dispatcher already refused with 'no method' would produce a second response - the harness's receiver only records the fall-through",
@@ -67,13 +70,9 @@ LEVEL_TEXT = ("Machine-checked Coq theorems over ALL entry sets, naming function
 
 # ---- known finding F4: completion function passed to a notify-shaped method ----
 def _s(l):
-    if isinstance(l, dict):  # {"U": [[length, 7-byte big-endian chunks...]]}
+    if isinstance(l, dict):  # {"B": [["x67", "x2e", ...]]}
         (p,), = l.values()
-        n, out = (p[0] if p else 0), b""
-        for i, x in enumerate(p[1:]):
-            k = min(7, n - 7 * i)
-            out += x.to_bytes(k, "big")
-        return out.decode("latin-1")
+        return "".join(chr(int(x[1:], 16)) for x in p)
     return bytes(l).decode("latin-1")
 
 
